@@ -567,6 +567,15 @@ class DestHandler:
                 self._handle_fd_pdu(pdu_holder.to_file_data_pdu())
                 if self._params.acked_params.deferred_lost_segment_detection_active:
                     self._reset_nak_activity_parameters()
+            elif (
+                packet is not None
+                and pdu_holder.pdu_directive_type == DirectiveType.EOF_PDU
+                and pdu_holder.to_eof_pdu().condition_code != ConditionCode.NO_ERROR
+            ):
+                # EOF (Cancel) after the EOF (No Error): The sender gave up, so the missing data is
+                # not requested any more. Cancel Response Procedures, chapter 4.6.6.
+                self._params.acked_params.deferred_lost_segment_detection_active = False
+                self._handle_eof_pdu(pdu_holder.to_eof_pdu())
             self._deferred_lost_segment_handling()
         if self.states.step == TransactionStep.TRANSFER_COMPLETION:
             self._handle_transfer_completion()
